@@ -40,22 +40,37 @@ theorem C16_step (ds : DistSem) (m : Mode) (hm : m = .sim ∨ m = .assess ∨ m 
   subst hod
   obtain ⟨check, iargs, r', hma, hr', htr', hret', _, htrue, hfalse⟩ :=
     C14_mask_transparent_or_inert ds m hm p _ rm hrm
-  simp [maskArgs, Val.truthy, bind, Except.bind, pure, Except.pure] at hma
-  obtain ⟨rfl, rfl⟩ := hma
+  have hflag : (flag = 0 ∧ check = false ∨ flag = 1 ∧ check = true) ∧ iargs = [state] := by
+    by_cases h0 : flag = 0
+    · subst h0
+      simp [maskArgs, Val.asFlag, bind, Except.bind, pure, Except.pure] at hma
+      exact ⟨Or.inl ⟨rfl, hma.1⟩, hma.2.symm⟩
+    · by_cases h1 : flag = 1
+      · subst h1
+        simp [maskArgs, Val.asFlag, bind, Except.bind, pure, Except.pure] at hma
+        exact ⟨Or.inr ⟨rfl, hma.1⟩, hma.2.symm⟩
+      · exfalso
+        have : Val.asFlag (.int flag) = .error .shape := by
+          unfold Val.asFlag; split <;> simp_all
+        simp [maskArgs, this, bind, Except.bind] at hma
+  obtain ⟨hfc, rfl⟩ := hflag
   refine ⟨r', by simpa using hr', ?_, ?_⟩
   · intro hf
-    subst hf
-    have hc := hfalse (by simp)
+    have hck : check = false := by rcases hfc with ⟨_, h⟩ | ⟨h1, _⟩; exact h; omega
+    subst hf; subst hck
+    have hc := hfalse rfl
     refine ⟨by rw [hsc]; exact hc.1, by rw [hw]; exact hc.2, ?_⟩
     rw [hret, ← Except.ok.injEq, ← hrv]
     simp [finalPost, Expr.eval, Expr.evalL, hret', Val.mkMask, Val.truthy, bind, Except.bind, pure, Except.pure]
     cases r'.tr.ret <;> simp [Val.mkMask]
   · intro hf
-    have hc := htrue (by simpa using hf)
+    have hck : check = true ∧ flag = 1 := by rcases hfc with ⟨h0, _⟩ | ⟨h1, h⟩; exact absurd h0 hf; exact ⟨h, h1⟩
+    obtain ⟨hck, rfl⟩ := hck; subst hck
+    have hc := htrue rfl
     refine ⟨by rw [hsc]; exact hc.1, by rw [hw]; exact hc.2, ?_⟩
     rw [hret, ← Except.ok.injEq, ← hrv]
-    simp [finalPost, Expr.eval, Expr.evalL, hret', Val.truthy, bind, Except.bind, pure, Except.pure, hf]
-    cases hr : r'.tr.ret <;> simp [Val.mkMask, hf, payload]
+    simp [finalPost, Expr.eval, Expr.evalL, hret', Val.truthy, bind, Except.bind, pure, Except.pure]
+    cases hr : r'.tr.ret <;> simp [Val.mkMask, payload]
 
 /-- tests: flags [1, 0, 1] on the step x ↦ x + z -/
 example : (run Test.ds .sim (Derived.maskedIterateFinal
